@@ -906,7 +906,8 @@ static Type check_expression_impl(ASTNode *expr, Environment *env) {
                         message,
                         "Convert operands to the same type before comparing."
                     );
-                } else if (left == TYPE_STRING || left == TYPE_BOOL) {
+                } else if (left == TYPE_STRING || left == TYPE_BOOL || left == TYPE_STRUCT ||
+                           left == TYPE_UNION || left == TYPE_TUPLE || left == TYPE_FUNCTION) {
                     /* < <= > >= are defined on (int, int) and (float, float) only (spec 4.5) */
                     char message[256];
                     snprintf(message, sizeof(message),
